@@ -176,7 +176,31 @@ fn shrink_case(p: &dyn Prop, d: &mut Driver, req: &str, want_rel: bool) -> Strin
     cur
 }
 
+static JOURNAL_NO: std::sync::atomic::AtomicUsize = std::sync::atomic::AtomicUsize::new(0);
+thread_local! {
+    /// with VERIF_JOURNAL=<dir> every worker appends each request to its own file BEFORE running
+    /// it (flushed): if the implementation kills the process (stack overflow, abort), bin/check
+    /// finds the request in flight as the last line of one of the journals
+    static JOURNAL: std::cell::RefCell<Option<std::fs::File>> = std::cell::RefCell::new(
+        std::env::var("VERIF_JOURNAL").ok().and_then(|d| {
+            let n = JOURNAL_NO.fetch_add(1, std::sync::atomic::Ordering::SeqCst);
+            std::fs::File::create(std::path::Path::new(&d).join(format!("w{}.journal", n))).ok()
+        })
+    );
+}
+
+fn journal(req: &str) {
+    use std::io::Write;
+    JOURNAL.with(|j| {
+        if let Some(f) = j.borrow_mut().as_mut() {
+            let _ = writeln!(f, "{}", req);
+            let _ = f.flush();
+        }
+    });
+}
+
 fn process(p: &dyn Prop, d: &mut Driver, case: &Case, st: &mut Stats, sample_every: usize) {
+    journal(&case.req);
     let (model, imp) = eval_case(p, d, &case.req);
     st.evaluations += 1;
     if case.in_domain {
@@ -209,7 +233,12 @@ fn process(p: &dyn Prop, d: &mut Driver, case: &Case, st: &mut Stats, sample_eve
         e.0 += 1;
         return;
     }
-    if st.failures.len() >= 20 {
+    // keep room for violations of the property itself: differences outside the property's
+    // domain (they come first when small exhaustive cases run first) must not fill the list
+    let likely_real = rel || (case.in_domain && differs);
+    let kept_real = st.failures.iter().filter(|f| f["property_violation"] == json!(true)).count();
+    let kept_other = st.failures.len() - kept_real;
+    if (likely_real && kept_real >= 15) || (!likely_real && kept_other >= 5) {
         return;
     }
     let small = if slow || too_slow() { case.req.clone() } else { shrink_case(p, d, &case.req, rel) };
@@ -384,7 +413,10 @@ fn merge(into: &mut Stats, st: Stats) {
         }
     }
     for f in st.failures {
-        if into.failures.len() < 40 {
+        // violations of the property itself first; differences outside its domain fill what is left
+        let real = f["property_violation"] == json!(true);
+        let others = into.failures.iter().filter(|g| g["property_violation"] != json!(true)).count();
+        if into.failures.len() < 40 && (real || others < 10) {
             into.failures.push(f);
         }
     }
